@@ -1794,7 +1794,7 @@ def check_panic_freedom(prog, rule, roots, prop, scope_crates=("rustybgp_packet"
         if open_keys:
             nm = prog.name(k)
             pool = [rk1 for rk1, e in reviewed.items() if e.get("prop") == prop and rk1 not in exact and rk1 not in claimed
-                    and (e["fn"] == nm or e["fn"] == _root_fn_name(nm) or _root_fn_name(e["fn"]) == nm)]
+                    and (e["fn"] == nm or e["fn"] == _root_fn_name(nm) or _root_fn_name(e["fn"]) == nm or _root_fn_name(e["fn"]) == _root_fn_name(nm))]
             by_src = {}      # one source site expanded at several call sites (a closure called twice) is one site
             for okey, kind, src in open_keys:
                 if src in by_src:
